@@ -1,5 +1,6 @@
 import IceModel.GatherCycle
 import IceSpec.C11Forced
+import IceSpec.C11ForcedView
 import Driver.Util
 /-!
 Tie A for the gathering cycle, FORCED interleavings (harness `zz_verif_gatherforce_test.go`):
@@ -26,48 +27,10 @@ open IceModel.GatherCycle IceSpec.C11.Forced Driver
 
 /-! ## observation tokens → events -/
 
-def natList? (s : String) : Option (List Nat) :=
-  if s.isEmpty then some [] else (s.splitOn ",").mapM String.toNat?
+/-- reader and string monitor of `IceSpec/C11ForcedView.lean` (`C11_forced_view_roundtrip`) -/
+def parseTok (t : String) : Option FEv := IceSpec.C11.Forced.View.parseFTok t
 
-def parseTok (t : String) : Option FEv :=
-  let body := (t.drop 1).toString
-  match t.front with
-  | 'G' => body.toNat?.map .gather
-  | 'R' => if body == "!" then some (.restart none) else body.toNat?.map (fun u => .restart (some u))
-  | 'S' => if body == "!" then some (.state none) else body.toNat?.map (fun g => .state (some g))
-  | 'X' => if body.isEmpty then some (.close false) else if body == "-" then some .closeAgain else none
-  | 'Y' => if body.isEmpty then some (.close true) else none
-  | 'L' => if body == "-" then some (.release none) else body.toNat?.map (fun k => .release (some k))
-  | 'l' => body.toNat?.map .listen
-  | 'a' => match body.splitOn ":" with
-    | [c, id] => do some (.offer (← c.toNat?) (← id.toNat?))
-    | _ => none
-  | 'r' => match body.splitOn "=" with
-    | [id, "ok"] => id.toNat?.map (.result · (some true))
-    | [id, "err"] => id.toNat?.map (.result · (some false))
-    | id :: _ :: _ => id.toNat?.map (.result · none)
-    | _ => none
-  | 'c' => match body.splitOn "@" with
-    | [ti, e] => match ti.splitOn ":" with
-      | [tg, id] => do some (.cand (← tg.toNat?) (← id.toNat?) (← e.toNat?))
-      | _ => none
-    | _ => none
-  | 'n' => match body.splitOn "@" with
-    | ["", e] => e.toNat?.map .nil
-    | _ => none
-  | 'Q' =>
-    if body == "!" then some .probeClosed
-    else if body == "?" then some .probeErr
-    else match body.splitOn "/" with
-      | [a, b] => do some (.probe (← natList? a) (← natList? b))
-      | _ => none
-  | 'Z' => if body == "!" then some .finalStuck else (natList? body).map .final
-  | _ => none
-
-def monitorObs (obs : String) : Option String :=
-  match (obs.splitOn " ").mapM parseTok with
-  | none => some "unparsable observation"
-  | some evs => monitorForced evs
+def monitorObs (obs : String) : Option String := IceSpec.C11.Forced.View.monitorObs obs
 
 /-! ## the model's observation -/
 
